@@ -191,7 +191,7 @@ func init() {
 		NonTrivial: func(c *Case, ev map[string]int) bool {
 			return any(ev, "iter_closed_inside", "iter_abandoned_inside", "nested:set", "nested:del")
 		},
-		Rule: "iterator scripts (Next/Close in any order, Close twice, Next after Close/exhaustion, up to 3 iterators interleaved, mutations by the same goroutine while iterators are open) and visits whose callbacks call reads, nested visits, Snapshot, SetItem/Delete/Flush/Evict on the same store; delivered sequence == model range, Next()==false after end, Err()==nil, producer goroutines gone (bounded wait), version reference count back to its value, no watchdog hit. Non-trivial = Close/abandon strictly inside the range or a mutation nested in a visitor."})
+		Rule: "iterator scripts (Next/Close in any order, Close twice, Next after Close/exhaustion, up to 3 iterators interleaved, mutations by the same goroutine while iterators are open, a memory-only snapshot store closed under its iterators mid-walk) and visits whose callbacks call reads, nested visits, Snapshot, SetItem/Delete/Flush/Evict on the same store; delivered sequence == model range, Next()==false after end, Err()==nil, producer goroutines gone (bounded wait), version reference count back to its value, no watchdog hit. Non-trivial = Close/abandon strictly inside the range or a mutation nested in a visitor."})
 	reg(&Spec{Prop: "C19", Profile: profLazy, Opts: RunOpts{Lazy: true},
 		NonTrivial: func(c *Case, ev map[string]int) bool {
 			return ev["lazy_reads_checked"] > 0 && has(ev, "lazy_open_checked") && ev["flush"] >= 1
